@@ -230,4 +230,5 @@ func runC06(e *Engine, r *Report) {
 	ruleReadBatchCopy(e, r)
 	ruleSingleNodeQuorum(e, r)
 	ruleRaftPredicates(e, r, "hasCommittedEntryAtCurrentTerm")
+	ruleReadyKeyedByCtx(e, r)
 }
